@@ -467,3 +467,34 @@ def r_star_nfa(RN):
     T += [(s, EPS, (1, RN[3]))] + [((1, f), EPS, (1, RN[3])) for f in RN[4]]
     Q = [s] + [(1, q) for q in RN[0]]
     return (tuple(Q), RN[1], tuple(T), s, (s,) + tuple((1, q) for q in RN[4]))
+
+
+# ---------------------------------------------------------------- canonical form of a regular language
+def canonical_language(RN):
+    """canonical table of the minimal complete DFA of L(RN) (over RN's alphabet): two automata
+    over the same alphabet have equal tables iff they accept the same language"""
+    RD = determinize(RN)[0]
+    cls = moore_classes(RD, RD[0])
+    d = {(p, a): q for (p, a, q) in RD[2]}
+    F = set(RD[4])
+    start = cls[RD[3]]
+    rep = {}
+    for q in RD[0]:
+        rep.setdefault(cls[q], q)
+    num = {start: 0}
+    order = [start]
+    table = []
+    i = 0
+    while i < len(order):
+        c = order[i]
+        q = rep[c]
+        row = []
+        for a in RD[1]:
+            c2 = cls[d[(q, a)]]
+            if c2 not in num:
+                num[c2] = len(order)
+                order.append(c2)
+            row.append(num[c2])
+        table.append((q in F, tuple(row)))
+        i += 1
+    return (tuple(RD[1]), tuple(table))
